@@ -3,6 +3,7 @@ import HexModel.Parse
 import HexModel.Core.Hexital
 import HexModel.Core.Input
 import HexModel.Core.SettingsWire
+import HexModel.Core.Surface
 /-
 The line-protocol driver: one operation per line in, canonical output lines out.
 -/
@@ -14,6 +15,13 @@ structure DState where
   ind : Option (IndState Float) := none
   hex : Option (Hexital Float) := none
   pending : List (Member Float) := []
+  /-- the timeframe of `mgr` as written (upper-cased): `CandleManager.timeframe`, which `__eq__` compares -/
+  mgrTf : Option String := none
+  /-- the configuration side of `hex` (`Hexital.indicator_settings`) and of the `pending` members -/
+  members : HexMembers Float := { hcfg := {} }
+  pendingCfg : List (String × Settings.IndCfg Float) := []
+  /-- `hmember form=bad`: something that is neither an `Indicator` nor a dict waits among the pending members -/
+  pendingBad : Bool := false
 
 def parseCfg (ps : List (String × String)) : PyM MgrCfg := do
   let tf ← match param ps "tf" with
@@ -57,6 +65,58 @@ def showRes (r : PyM (Val Float)) : String :=
   | .ok v => showVal v
   | .error e => s!"aerr {e}"
 
+def showBoolRes (r : PyM Bool) : String :=
+  match r with
+  | .ok b => toString b
+  | .error e => s!"aerr {e}"
+
+/-- a candle written as one token `ts,o,h,l,c,v` -/
+def parseCsvCandle (s : String) : Option (Candle Float) := (parseCandle (s.splitOn ",")).map (·.1)
+
+/-- `candles[i] == candles[j]` (`j=`), `candles[i] == Candle(…)` (`c=ts,o,h,l,c,v`: a fresh candle without readings)
+or `candles[i] == <not a Candle>` (`other=int`) -/
+def candlesEq (cs : List (Candle Float)) (ps : List (String × String)) : String :=
+  match (param ps "i").bind String.toInt? with
+  | none => "bad-acc"
+  | some i =>
+    match (param ps "j").bind String.toInt?, param ps "c", param ps "other" with
+    | some j, _, _ => showBoolRes (candlesEqAt cs i j)
+    | none, some c, _ =>
+      match parseCsvCandle c with
+      | some c => showBoolRes (candleEqAt cs i (some c))
+      | none => "bad-acc"
+    | none, none, some _ => showBoolRes (candleEqAt cs i none)
+    | _, _, _ => "bad-acc"
+
+/-- read-only accessors of a `CandleManager`: `find name=` (`find_indicator`), `eq tf= fill= life=` (`__eq__` against a
+manager built with these arguments; `other=int`: against something that is no manager), `ceq …` (`Candle.__eq__`) -/
+def mgrAcc (m : Manager Float) (tfName : Option String) (what : String) (ps : List (String × String)) : String :=
+  match what with
+  | "find" => match param ps "name" with
+    | some n => toString (findIndicator m.candles n)
+    | none => "bad-acc"
+  | "eq" =>
+    if (param ps "other").isSome then toString ((m.ident tfName).pyEq none) else
+    let other : MgrIdent := { lifespan := (param ps "life").bind String.toInt?,
+                              timeframe := (param ps "tf").map String.toUpper,
+                              fill := param ps "fill" == some "1" }
+    toString ((m.ident tfName).pyEq (some other))
+  | "ceq" => candlesEq m.candles ps
+  | _ => "bad-acc"
+
+/-- `hexital.utils.indexing` called directly: `idx=None` (or no `idx`) is Python's `None` -/
+def utilOp (what : String) (ps : List (String × String)) : String :=
+  let idx : Option Int := (param ps "idx").bind String.toInt?
+  let len : Nat := ((param ps "len").bind String.toNat?).getD 0
+  let showOI : Option Int → String := fun o => match o with
+    | some i => toString i
+    | none => "n"
+  match what with
+  | "validate_index" => showOI (validateIndex idx len (pInt ps "default" (-1)))
+  | "absindex" => showOI (absIndexOpt idx len)
+  | "valid_index" => toString (validIndexOpt idx len)
+  | _ => "bad-acc"
+
 /-- read-only accessors of an indicator object -/
 def indAcc (s : IndState Float) (what : String) (ps : List (String × String)) : String :=
   let nm : String := (param ps "name").getD s.tree.name
@@ -74,6 +134,18 @@ def indAcc (s : IndState Float) (what : String) (ps : List (String × String)) :
   | "reading_count" => toString (readingCount s.mgr.candles nm)
   | "reading_period" => toString (x.readingPeriod (pInt ps "period" 1) nm idx)
   | "candles_sum" => showRes (x.candlesSum (pInt ps "length" 1) nm idx)
+  -- `read_candle(candle, name)`: one of the object's own candles (`idx=`) or a fresh one (`c=ts,o,h,l,c,v`)
+  | "read_candle" =>
+    match param ps "c" with
+    | some csv => match parseCsvCandle csv with
+      | some c => showVal (s.readCandle c (param ps "name"))
+      | none => "bad-acc"
+    | none => showRes (s.readCandleAt (pInt ps "idx" (-1)) (param ps "name"))
+  -- `utils.candles.reading_period(candles, period, name, index)` itself (`idx` absent: `index=None`)
+  | "reading_period_fn" => toString (readingPeriodOpt s.mgr.candles (pInt ps "period" 1) nm idx)
+  -- `indicator.candle_manager.find_indicator(name)`
+  | "find" => toString (findIndicator s.mgr.candles nm)
+  | "ceq" => candlesEq s.mgr.candles ps
   | _ => "bad-acc"
 
 /-- the caller's encoding of the candles (`enc=candle|dict|list|tlist`, `single=1` for one bare
@@ -90,6 +162,14 @@ def decodeEnc (ps : List (String × String)) (cs : List (Candle Float)) : PyM (L
   | some "tlist", [c] => if single then decodeInput (.list (encodeList true c)) else decodeInput (.lists [encodeList true c])
   | some "tlist", [] => decodeInput .empty
   | some "tlist", cs => decodeInput (.lists (cs.map (encodeList true)))
+  -- dicts whose `timestamp` is an ISO-8601 string (`enc=isocandle`: `Candle(…, timestamp="<iso>")` objects – the
+  -- constructor has parsed the string before `append` sees them, so they fall under the `Candle` cases below)
+  | some "isodict", [c] => if single then decodeInput (.dict (encodeDictIso c)) else decodeInput (.dicts [encodeDictIso c])
+  | some "isodict", [] => decodeInput .empty
+  | some "isodict", cs => decodeInput (.dicts (cs.map encodeDictIso))
+  -- what `append` rejects: a float / a list of strings
+  | some "badobj", _ => decodeAny .otherObject
+  | some "badlist", _ => decodeAny .listOfOther
   | _, [c] => if single then decodeInput (.candle c) else decodeInput (.candles [c])
   | _, cs => decodeInput (.candles cs)
 
@@ -126,8 +206,16 @@ def step (st : DState) (line : String) : DState × List String :=
       | none => (st, ["bad-op"])
       | some (cs, _) =>
         match (do let cfg ← parseCfg ps; Manager.init cfg cs) with
-        | .ok m => ({ st with mgr := some m }, ["ok"])
+        | .ok m => ({ st with mgr := some m, mgrTf := (param ps "tf").map String.toUpper }, ["ok"])
         | .error e => ({ st with mgr := none }, [s!"err {e}"])
+  | "macc" :: what :: rest =>
+    let (ps, _) := splitParams rest
+    match st.mgr with
+    | some m => (st, [mgrAcc m st.mgrTf what ps])
+    | none => (st, ["nomgr"])
+  | "util" :: what :: rest =>
+    let (ps, _) := splitParams rest
+    (st, [utilOp what ps])
   | "mapp" :: rest =>
     let (ps, rest) := splitParams rest
     match st.mgr, (param ps "n").bind String.toNat? with
@@ -139,6 +227,13 @@ def step (st : DState) (line : String) : DState × List String :=
         | .ok m' => ({ st with mgr := some m' }, ["ok"])
         | .error e => ({ st with mgr := none }, [s!"err {e}"])
     | _, _ => (st, ["bad-op"])
+  | "mtag" :: rest =>
+    let (ps, _) := splitParams rest
+    match st.mgr with
+    | some m => match m.tagAt (pInt ps "i" (-1)) with
+      | .ok m' => ({ st with mgr := some m' }, ["ok"])
+      | .error e => ({ st with mgr := none }, [s!"err {e}"])
+    | none => (st, ["bad-op"])
   | "mtasks" :: _ =>
     match st.mgr with
     | some m => match tasks m.cfg m.candles with
@@ -177,6 +272,11 @@ def step (st : DState) (line : String) : DState × List String :=
     match st.ind with
     | some s => ({ st with ind := some s.purge }, ["ok"])
     | none => (st, ["bad-op"])
+  | "ipurgename" :: rest =>
+    let (ps, _) := splitParams rest
+    match st.ind, param ps "name" with
+    | some s, some n => ({ st with ind := some (s.purgeName n) }, ["ok"])
+    | _, _ => (st, ["bad-op"])
   | "irecalc" :: _ =>
     match st.ind with
     | some s => indOp st s.recalculate
@@ -203,7 +303,15 @@ def step (st : DState) (line : String) : DState × List String :=
     match st.ind, parseAnalysis ps with
     | some s, some a =>
       let idx : Option Int := (param ps "idx").bind String.toInt?
+      -- `one=<i>`: positive / negative handed ONE candle (`candles[i]`) instead of the list
+      let one : Option (PyM (Candle Float)) := ((param ps "one").bind String.toInt?).map (pyIndex s.mgr.candles)
       let r : PyM (Val Float) := match a, idx with
+        | .positive, _ => (match one with
+          | some c => do let c ← c; pure (Mov.positiveAny (some c) s.mgr.candles (idx.getD (-1)))
+          | none => pure (Mov.positiveAny none s.mgr.candles (idx.getD (-1))))
+        | .negative, _ => (match one with
+          | some c => do let c ← c; pure (Mov.negativeAny (some c) s.mgr.candles (idx.getD (-1)))
+          | none => pure (Mov.negativeAny none s.mgr.candles (idx.getD (-1))))
         | .doji lb, none => Pat.doji s.mgr.candles lb none
         | .dojistar lb, none => Pat.dojistar s.mgr.candles lb none
         | .hammer lb, none => Pat.hammer s.mgr.candles lb none
@@ -214,8 +322,15 @@ def step (st : DState) (line : String) : DState × List String :=
     | _, _ => (st, ["bad-op"])
   | "hmember" :: rest =>
     let (ps, _) := splitParams rest
+    if param ps "form" == some "bad" then ({ st with pendingBad := true }, ["ok name=-"]) else
     match parseMember ps with
-    | some m => ({ st with pending := st.pending ++ [m] }, [s!"ok name={m.tree.name}"])
+    | some m =>
+      let cfg := match Settings.Wire.userDict ps with
+        | some d => match Settings.build d with
+          | .ok c => [(m.tree.name, c)]
+          | .error _ => []
+        | none => []
+      ({ st with pending := st.pending ++ [m], pendingCfg := st.pendingCfg ++ cfg }, [s!"ok name={m.tree.name}"])
     | none => (st, ["bad-op"])
   | "hnew" :: rest =>
     let (ps, rest) := splitParams rest
@@ -226,10 +341,19 @@ def step (st : DState) (line : String) : DState × List String :=
       | none => (st, ["bad-op"])
       | some (cs, _) =>
         let members := st.pending
-        hexOp { st with pending := [] } (do let cfg ← parseMgrCfg ps; Hexital.init cfg ((param ps "tf").map String.toUpper) cs members)
+        let hcfg : Settings.HexCfg :=
+          { timeframe := (param ps "tf").map String.toUpper, timeframe_fill := param ps "fill" == some "1",
+            candles_lifespan := (param ps "life").bind String.toInt?,
+            candlestick_type := if param ps "ha" == some "1" then some .ha else none }
+        let hm : HexMembers Float := ({ hcfg := hcfg } : HexMembers Float).add st.pendingCfg
+        let anyMembers : List (AnyMember Float) := members.map .valid ++ (if st.pendingBad then [.other] else [])
+        hexOp { st with pending := [], pendingCfg := [], pendingBad := false, members := hm }
+          (do let cfg ← parseMgrCfg ps; Hexital.initAny cfg ((param ps "tf").map String.toUpper) cs anyMembers)
   | "hadd" :: _ =>
     match st.hex with
-    | some h => hexOp { st with pending := [] } (h.addIndicators st.pending)
+    | some h =>
+      let anyMembers : List (AnyMember Float) := st.pending.map .valid ++ (if st.pendingBad then [.other] else [])
+      hexOp { st with pending := [], pendingCfg := [], pendingBad := false, members := st.members.add st.pendingCfg } (h.addIndicatorsAny anyMembers)
     | none => (st, ["bad-op"])
   | "happ" :: rest =>
     let (ps, rest) := splitParams rest
@@ -262,7 +386,7 @@ def step (st : DState) (line : String) : DState × List String :=
   | "hrem" :: rest =>
     let (ps, _) := splitParams rest
     match st.hex with
-    | some h => hexOp st (h.removeIndicator (param ps "name"))
+    | some h => hexOp { st with members := st.members.remove (param ps "name") } (h.removeIndicator (param ps "name"))
     | none => (st, ["bad-op"])
   | "hsnap" :: _ =>
     match st.hex with
@@ -275,7 +399,13 @@ def step (st : DState) (line : String) : DState × List String :=
     | some h =>
       let nm := (param ps "name").getD ""
       let out := match what with
-        | "reading" => showRes (h.reading nm (pInt ps "idx" (-1)))
+        -- `idx=None`: `Hexital.reading(name, index=None)`
+        | "reading" => if param ps "idx" == some "None" then showRes (h.readingOpt nm none) else showRes (h.reading nm (pInt ps "idx" (-1)))
+        -- `Hexital.indicator(member)` and then one of the object's own accessors (`what=`, with its parameters)
+        | "indicator" => match h.indicator (pStr ps "member" "") with
+          | .ok s => indAcc s (pStr ps "what" "name") ps
+          | .error e => s!"aerr {e}"
+        | "indicator_settings" => " | ".intercalate (st.members.indicatorSettings.map Settings.Wire.showSettings)
         | "prev_reading" => showRes (h.prevReading nm)
         | "has_reading" => match h.hasReading nm with
           | .ok b => toString b
